@@ -37,8 +37,9 @@ RT = 'src/containers/grid/RayTracing.cpp'
 mut('c14_count_without_plus_one', 'C14', 1, RT, "rayOriginIndexes_.template cast<int>()).array().abs().sum() + 1;", "rayOriginIndexes_.template cast<int>()).array().abs().sum();")
 mut('c14_zero_step_axis_keeps_old_crossing_harmless', 'C14', 0, RT, "    } else {\n      rayTMax_[i] = std::numeric_limits<Scalar>::max();\n      rayTDelta_[i] = std::numeric_limits<Scalar>::max();\n    }", "    }",
     "stale crossing parameters of a zero-step axis; equivalent since next() never steps along an axis that is at its end index (a zero-step axis always is)")
-mut('c14_origin_set_after_end', 'C14', 1, RT, "  setOriginPoint(originPoint);\n  return cast(endPoint);", "  setEndPoint(endPoint);\n  setOriginPoint(originPoint);\n  return cast();",
+mut('c14_origin_set_after_end', 'C14', 1, RT, "  setOriginPoint(originPoint);\n  return cast(endPointValue);", "  setEndPoint(endPointValue);\n  setOriginPoint(originPoint);\n  return cast();",
     "crossing parameters computed from the previous origin")
+mut('c14_cast_reads_end_after_origin_update', 'C14', 1, RT, "  const PointType endPointValue = endPoint;\n  setOriginPoint(originPoint);\n  return cast(endPointValue);", "  setOriginPoint(originPoint);\n  return cast(endPoint);", "reverts fix: end argument aliasing the stored origin")
 mut('c14_step_ignores_end_index', 'C14', 1, RT, "  const double tMax0 = cellIndexes[0] == rayEndIndexes_[0] ?\n    std::numeric_limits<double>::max() : rayTMax_[0];\n  const double tMax1 = cellIndexes[1] == rayEndIndexes_[1] ?\n    std::numeric_limits<double>::max() : rayTMax_[1];\n  // find minimum rayTMax_",
     "  const double tMax0 = rayTMax_[0];\n  const double tMax1 = rayTMax_[1];\n  // find minimum rayTMax_", "reverts fix for double 2D")
 mut('c14_tdelta_uses_direction_sign', 'C14', 1, RT, "rayTDelta_[i] = gridIndexMapping_->getCellResolution() / std::abs(rayDirection_[i]);", "rayTDelta_[i] = gridIndexMapping_->getCellResolution() / rayDirection_[i];")
